@@ -55,6 +55,14 @@ class Cls:
         d.update(self.defaults)
         return d
 
+    @property
+    def omit_none(self):
+        """effective Config.omit_none (nearest Config in the MRO), None = not set"""
+        if self.own_config:
+            v = self.extra.get("omit_none")
+            return None if v is None else (v == "True")
+        return self.parent.omit_none if self.parent else None
+
     def ancestors(self):
         c = self.parent
         while c is not None:
@@ -71,6 +79,7 @@ class Scenario:
         self.classes: list[Cls] = []
         self.roots: list = []           # root types; wrapper W<i> has the field f: roots[i]
         self.dialect = None             # None | True | False | "unset" | "strategy" (what the dialect Dl sets)
+        self.dialect_omit = None        # omit_none of the dialect Dl (None = not set)
         self.lazy = False               # classes use Config.lazy_compilation (values stay exact-class)
         self.wide = False               # Config options outside the Coq model (oracles only, no correspondence)
         self.module = None
@@ -79,6 +88,7 @@ class Scenario:
         self.twins = []                 # (class, look-alike class) pairs
         self.multi = False              # classes spread over several modules, equal __qualname__ in different modules
         self.pep563 = False             # modules start with `from __future__ import annotations` (string annotations)
+        self.mixin_override = None      # (module, class): every "DataClassDictMixin" of the sources is this format mixin
 
     def cls(self, name) -> Cls:
         for c in self.classes:
@@ -190,6 +200,8 @@ def gen_scenario(rng, sid, dialect_p=0.3, wide=False) -> Scenario:
     sc.wide = wide
     if rng.random() < dialect_p:
         sc.dialect = rng.choice([True, False, "unset"]) if not wide else rng.choice(["unset", "strategy"])
+        if not wide:
+            sc.dialect_omit = rng.choice([None, None, True, False])
     sc.lazy = rng.random() < (0.5 if wide else 0.3)
     sc.flags = [f for f in WIDE_FLAGS if rng.random() < 0.3] if wide else []
     sc.multi = rng.random() < 0.4
@@ -230,6 +242,8 @@ def gen_scenario(rng, sid, dialect_p=0.3, wide=False) -> Scenario:
             extra["lazy_compilation"] = "True"
         if rng.random() < 0.12:
             extra["allow_postponed_evaluation"] = "False"
+        if not wide and rng.random() < 0.3:
+            extra["omit_none"] = rng.choice(["True", "True", "False"])       # in the Coq model (c_omit_none)
         defaults = {}
         if wide:
             for o in WIDE_OPTS:
@@ -412,6 +426,12 @@ import sys as _sys, types as _types
 FUTURE = "from __future__ import annotations\n"
 
 
+def mixin_line(sc) -> str:
+    if not sc.mixin_override:
+        return ""
+    return f"from {sc.mixin_override[0]} import {sc.mixin_override[1]} as DataClassDictMixin\n"
+
+
 def cls_src(sc: Scenario, c: Cls, nm=None) -> str:
     bases = []
     if c.parent:
@@ -461,22 +481,24 @@ def wrapper_src(sc: Scenario, i: int, t) -> str:
 def scenario_src(sc: Scenario) -> str:
     # dataclass fields without default may not follow fields with default: aliases use field(metadata=..)
     # which has no default, so any order is fine.
-    s = (FUTURE if sc.pep563 else "") + HEADER
+    s = (FUTURE if sc.pep563 else "") + HEADER + mixin_line(sc)
     if sc.dialect is not None:
         if sc.dialect == "unset":
-            s += "class Dl(Dialect):\n    no_copy_collections = (list,)\n\n" if sc.wide else "class Dl(Dialect):\n    omit_none = False\n\n"
+            s += "class Dl(Dialect):\n    no_copy_collections = (list,)\n" if sc.wide else "class Dl(Dialect):\n    namedtuple_as_dict = False\n"
+            s += (f"    omit_none = {sc.dialect_omit}\n" if sc.dialect_omit is not None else "") + "\n"
         elif sc.dialect == "strategy":
             s += ("class Dl(Dialect):\n    serialization_strategy = {date: {'serialize': date.toordinal, "
                   "'deserialize': date.fromordinal}}\n\n")
         else:
-            s += f"class Dl(Dialect):\n    serialize_by_alias = {sc.dialect}\n\n"
+            s += f"class Dl(Dialect):\n    serialize_by_alias = {sc.dialect}\n"
+            s += (f"    omit_none = {sc.dialect_omit}\n" if sc.dialect_omit is not None else "") + "\n"
     # library modules: created at exec time under <main module name>_A / _B, so that the source stays self-contained
     for home in ("A", "B"):
         members = [c for c in sc.classes if c.home == home]
         if not members:
             continue
         nm = {c.name: c.pyname for c in members}
-        lib = (FUTURE if sc.pep563 else "") + HEADER + "".join(cls_src(sc, c, nm) + "\n" for c in members)
+        lib = (FUTURE if sc.pep563 else "") + HEADER + mixin_line(sc) + "".join(cls_src(sc, c, nm) + "\n" for c in members)
         s += (f"_lib{home} = _types.ModuleType(__name__ + '_{home}'); _sys.modules[_lib{home}.__name__] = _lib{home}\n"
               f"exec(compile({lib!r}, _lib{home}.__name__, 'exec', dont_inherit=True), _lib{home}.__dict__)\n")
         for c in members:
@@ -653,6 +675,20 @@ def coq_optb(b) -> str:
     return "None" if b is None or b in ("unset", "strategy") else ("(Some true)" if b else "(Some false)")
 
 
+def coq_opts(sc: Scenario) -> str:
+    """the dialect Dl as one option layer of the model"""
+    ba = sc.dialect if isinstance(sc.dialect, bool) else None
+    return f"(mkO {coq_optb(ba)} {coq_optb(sc.dialect_omit)})"
+
+
+def scenario_compat(sc: Scenario) -> bool:
+    """dialect and Config never contradict each other (then call dialect vs default dialect is invisible)"""
+    ba = sc.dialect if isinstance(sc.dialect, bool) else None
+    om = sc.dialect_omit
+    return all((ba is None or c.by_alias is None or c.by_alias == ba) and
+               (om is None or c.omit_none is None or c.omit_none == om) for c in sc.classes)
+
+
 def coq_env(sc: Scenario, has=None) -> str:
     has = has if has is not None else predicted_has_method(sc)
     items = []
@@ -660,7 +696,7 @@ def coq_env(sc: Scenario, has=None) -> str:
         fs = "; ".join(f"mkF {coq_str(fn)} {('(Some ' + coq_str(al) + ')') if al else 'None'} {coq_ty(ft)}"
                        for (fn, al, ft) in c.fields)
         par = f"(Some {coq_str(c.parent.name)})" if c.parent else "None"
-        items.append(f"mkC {coq_str(c.name)} {par} [{fs}] {coq_optb(c.by_alias)} {'true' if has[c.name] else 'false'}")
+        items.append(f"mkC {coq_str(c.name)} {par} [{fs}] {coq_optb(c.by_alias)} {coq_optb(c.omit_none)} {'true' if has[c.name] else 'false'}")
     return "[" + ";\n   ".join(items) + "]"
 
 
